@@ -5,6 +5,7 @@
 -/
 import ALV.Lemmas.C17Close
 import ALV.Lemmas.C17Chunks
+import ALV.Lemmas.C17Locks
 import ALV.Common.Audit
 
 namespace ALV.Props.C17
@@ -112,6 +113,54 @@ write on a stopped or closed stream, no stop/start/close of a closed stream, no 
 no `open` after `terminate`. -/
 theorem backend_protocol {cfg : Cfg} {script : List Cmd} {s : State} (h : Reach cfg script s) :
     s.perr = false := (si_reach h).g.noPerr
+
+/-- **C17.5 lock_order** — in every reachable state, a thread whose pending operation is the
+acquisition of lock `w` only holds locks of strictly smaller rank (`halting` < thread lock <
+manager lock): the waits-for relation between locks is acyclic, so no deadlock involves locks
+only (every deadlock of the model goes through `go.wait()` / `join`). -/
+theorem lock_order {cfg : Cfg} {script : List Cmd} {s : State} (hr : Reach cfg script s)
+    (t : Tid) (h w : LockId) (hh : holds s t h) (hw : wants s t = some w) :
+    lockRank h < lockRank w := by
+  obtain ⟨l1, l2, l3, l4⟩ := lk_reach hr
+  cases t with
+  | main =>
+    simp only [wants] at hw
+    cases h with
+    | hlock =>
+      have hc := (l1 _ hh).2
+      revert hw hc; cases s.mpc <;> simp [wantsMain, closeBody] <;> intro e <;> subst e <;> simp [lockRank]
+    | mlock =>
+      have hc := l2 hh
+      revert hw hc; cases s.mpc <;> simp [wantsMain, mainHoldsM]
+    | tlock i =>
+      obtain ⟨p, hp, hl⟩ := hh
+      rcases l4 i p hp _ hl with ⟨_, hc⟩ | ⟨hc, _⟩
+      · revert hw hc; cases s.mpc <;> simp [wantsMain, mainHoldsT]
+      · cases hc
+  | player i =>
+    simp only [wants] at hw
+    cases h with
+    | hlock => have := (l1 _ hh).1; cases this
+    | mlock =>
+      have hc := l3 i hh
+      unfold pcAt at hc
+      rw [hc] at hw
+      simp [wantsPlayer] at hw
+    | tlock j =>
+      obtain ⟨p, hp, hl⟩ := hh
+      rcases l4 j p hp _ hl with ⟨hc, _⟩ | ⟨hc, hsel⟩
+      · cases hc
+      · cases hc
+        rw [hp] at hw
+        simp only [Option.map_some, Option.bind_some] at hw
+        revert hw hsel
+        cases p.pc <;> simp [wantsPlayer, selfHold] <;> intro e <;> subst e <;> simp [lockRank]
+
+/-- non-vacuity: a player at `thread_finished` holds its own lock and wants the manager lock -/
+example : let s := (runSched ⟨true, false, 2⟩ (init [.play [101], .close])
+      ([0,0,0,0,0,0,0,1,1,1,1,1].map fun n => if n = 0 then Tid.main else Tid.player (n - 1))).1
+    (wants s (.player 0) = some .mlock ∧ (s.players[0]?).map (·.lk) = some (some (.player 0))) := by
+  decide
 
 /-! ### the deadlock of the code as it is (D10) -/
 
